@@ -73,7 +73,7 @@ func genNetConn(r *Rng, tier string, stat func(string)) []string {
 		}
 	}
 	for _, side := range []string{"read", "write"} {
-		for _, when := range []string{"idle-past", "idle-future", "active", "active-setpast", "active-setfuture", "idle-midmessage-past", "idle-midmessage-future"} {
+		for _, when := range []string{"idle-past", "idle-future", "active", "active-setpast", "active-setfuture", "idle-midmessage-past", "idle-midmessage-future", "idle-cleared"} {
 			for k := 0; k < 2; k++ {
 				if k == 1 {
 					out = append(out, fmt.Sprintf("kind=deadline side=%s when=%s via=both", side, when))
@@ -265,7 +265,9 @@ func runNetConnG(kv map[string]string, g *ghost) string {
 			return "dialerr=" + errClass(err)
 		}
 		a := net.Conn(ghostConn{websocket.NetConn(ctx, c, websocket.MessageBinary), g})
-		b := net.Conn(ghostConn{websocket.NetConn(ctx, s, websocket.MessageBinary), g})
+		// the other end only drains in the background; when the case tears the connection down its last Read may legitimately
+		// return bytes together with the error, so it is not counted
+		b := websocket.NetConn(ctx, s, websocket.MessageBinary)
 		defer c.CloseNow()
 		defer s.CloseNow()
 		go io.Copy(io.Discard, b) // the other end keeps reading so that writes complete
@@ -306,6 +308,22 @@ func runNetConnG(kv map[string]string, g *ghost) string {
 				_, e3 = a.Write([]byte("data"))
 			}
 			return fmt.Sprintf("first=%s second=%s afterreset=%s", ncErr(e1), ncErr(e2), ncErr(e3))
+		case "idle-cleared":
+			// a deadline that is cleared before it passes must not fire later (its timer is stopped)
+			set(time.Now().Add(60 * time.Millisecond))
+			time.Sleep(5 * time.Millisecond)
+			set(time.Time{})
+			time.Sleep(150 * time.Millisecond)
+			feed := func() {
+				if read {
+					go func() { time.Sleep(5 * time.Millisecond); s.Write(ctx, websocket.MessageBinary, []byte("pong")) }()
+				}
+			}
+			feed()
+			e1 := call()
+			feed()
+			e2 := call()
+			return fmt.Sprintf("first=%s second=%s", ncErr(e1), ncErr(e2))
 		case "idle-midmessage-past", "idle-midmessage-future":
 			// the deadline passes while no call is active but a message is only partly read (read side) / the connection has
 			// been written to (write side): the next call must fail with the deadline error all the same
@@ -369,8 +387,12 @@ func runNetConnG(kv map[string]string, g *ghost) string {
 			case <-time.After(3 * time.Second):
 				returned = false
 			}
-			time.Sleep(30 * time.Millisecond)
-			e2 := c.Write(ctx, websocket.MessageBinary, []byte("x"))
+			// the library closes the connection from its timeout goroutine: shortly afterwards, not at once
+			var e2 error
+			for i := 0; i < 100 && e2 == nil; i++ {
+				time.Sleep(30 * time.Millisecond)
+				e2 = c.Write(ctx, websocket.MessageBinary, []byte("x"))
+			}
 			return fmt.Sprintf("call=%v connclosed=%v eof=%v", returned && e1 != nil, e2 != nil, e1 == io.EOF)
 		case "active":
 			// the deadline fires during an active call: that call fails and the connection is closed
@@ -390,8 +412,12 @@ func runNetConnG(kv map[string]string, g *ghost) string {
 					}
 				}
 			}
-			time.Sleep(30 * time.Millisecond)
-			e2 := c.Write(ctx, websocket.MessageBinary, []byte("x"))
+			// the library closes the connection from its timeout goroutine: shortly afterwards, not at once
+			var e2 error
+			for i := 0; i < 100 && e2 == nil; i++ {
+				time.Sleep(30 * time.Millisecond)
+				e2 = c.Write(ctx, websocket.MessageBinary, []byte("x"))
+			}
 			return fmt.Sprintf("call=%v connclosed=%v eof=%v", e1 != nil, e2 != nil, e1 == io.EOF)
 		}
 	}
